@@ -331,7 +331,7 @@ func run(c *core.Ctx) {
 		return a.String() < b.String()
 	})
 	if c.Quick() {
-		layerB(c, acceptedSets, 150)
+		layerB(c, acceptedSets, 90)
 	} else {
 		layerB(c, acceptedSets, 4000)
 	}
